@@ -59,6 +59,19 @@ class Req:
 
 
 def run_unit(seed=None, unit=None, tier="quick", stats=None):
+    # object deaths feed the simulated allocator: the collector must not run at a random moment
+    import gc
+
+    was = gc.isenabled()
+    gc.disable()
+    try:
+        return _run_unit(seed, unit, tier, stats)
+    finally:
+        if was:
+            gc.enable()
+
+
+def _run_unit(seed=None, unit=None, tier="quick", stats=None):
     global INTROSPECTION
     if INTROSPECTION is None:
         INTROSPECTION = parse(get_introspection_query())
